@@ -4,16 +4,21 @@ package c03
 
 import (
 	"encoding/json"
+	"fmt"
 	"sort"
 	"strings"
 	"testing"
 
 	"pgregory.net/rapid"
 
+	"seehuhn.de/go/postscript"
+
 	"verif/harness/ev"
+	"verif/harness/pscanon"
 	"verif/harness/psdiff"
 	"verif/harness/psgen"
 	"verif/harness/psref"
+	"verif/harness/t1ref"
 )
 
 type c03case struct {
@@ -136,6 +141,77 @@ func TestP2SmallShapes(t *testing.T) {
 	rec.Exhaustive()
 }
 
+// ---------------------------------------------------------------------------
+// control flow that crosses an eexec section
+
+type sectionCase struct {
+	Text string `json:"section_text"` // the program placed inside the section
+}
+
+func runText(text string) (state string, errName string, depth int) {
+	intp := postscript.NewInterpreter()
+	intp.MaxOps = 200000
+	err := intp.ExecuteString(text)
+	return pscanon.StateWithSystem(intp), pscanon.ErrorName(err), len(intp.DictStack)
+}
+
+// checkSection runs the program inside an eexec section (hex form, closed by
+// closefile, followed by clear text) and as plain text after `systemdict
+// begin`; stop, exit and errors inside the section must act on the whole
+// program exactly as they do in plain text.
+func checkSection(c *sectionCase) string {
+	const tail = " 7001 7002\n"
+	_, perr, depth := runText("systemdict begin\n" + c.Text + "\n")
+	if depth < 3 {
+		return "" // the program pops systemdict itself: no plain equivalent
+	}
+	plain := "systemdict begin\n" + c.Text + "\n" + strings.Repeat("end ", depth-2) + tail
+	sec := append([]byte{'v', 'e', 'r', 'i'}, (c.Text + "\ncurrentfile closefile\n")...)
+	enc := fmt.Sprintf("currentfile eexec\n%x\n", t1ref.Encrypt(sec, 55665)) + tail
+	ps, pe, _ := runText(plain)
+	es, ee, _ := runText(enc)
+	_ = perr
+	if pe != ee {
+		return fmt.Sprintf("inside an eexec section the program ends with %q, as plain text with %q\nprogram: %s", ee, pe, c.Text)
+	}
+	if ps != es {
+		return fmt.Sprintf("the final state differs when the program runs inside an eexec section (followed by the clear text `7001 7002`)\n section: %s\n plain:   %s\nprogram: %s", clipState(es), clipState(ps), c.Text)
+	}
+	return ""
+}
+
+func clipState(s string) string {
+	s = strings.ReplaceAll(s, "\n", " | ")
+	if len(s) > 300 {
+		return s[:300] + "..."
+	}
+	return s
+}
+
+func TestP3Sections(t *testing.T) {
+	rec := ev.New("C03", "sections")
+	defer rec.Finish(t)
+	rec.Rule("control-flow programs of the same grammar placed inside an eexec section (hex form, harness cipher, closed by closefile and followed by clear text that pushes two integers): stop, exit, errors and normal completion inside the section must leave the same final state and error name as the same program run as plain text after `systemdict begin` (the plain semantics are those the control part compares with the reference interpreter). Non-trivial: the program contains stop or exit; distinct by program text.")
+	ev.SetupRapid(20000, 600000)
+	rapid.Check(t, func(t *rapid.T) {
+		toks, feat := psgen.Control(t, 30)
+		c := &sectionCase{Text: psgen.Spell(toks)}
+		rec.Eval(1)
+		if feat["stop"] {
+			rec.Class("stop")
+		}
+		if feat["stop"] || feat["exit"] {
+			rec.NonTrivial(c.Text)
+			if rec.WantSample() {
+				rec.Sample(c.Text)
+			}
+		}
+		if msg := ev.Safe(func() string { return checkSection(c) }); msg != "" {
+			rec.Fail(t, msg, c)
+		}
+	})
+}
+
 func TestReplay(t *testing.T) {
 	rc, err := ev.LoadReplay()
 	if err != nil {
@@ -143,6 +219,13 @@ func TestReplay(t *testing.T) {
 	}
 	if rc == nil {
 		t.Skip("no VERIF_REPLAY")
+	}
+	var sc sectionCase
+	if json.Unmarshal(rc.Case, &sc) == nil && sc.Text != "" {
+		if msg := ev.Safe(func() string { return checkSection(&sc) }); msg != "" {
+			t.Fatalf("%s", msg)
+		}
+		return
 	}
 	var c c03case
 	if err := json.Unmarshal(rc.Case, &c); err != nil {
